@@ -408,5 +408,5 @@ ASSUMPTIONS = ["read EIO/EINTR, ENOSPC and EPIPE are not injected (no property p
 
 def main(tier):
     n = 4000 if tier == "quick" else 2 * len(enum_list()) + 20000
-    cap = 500 if tier == "quick" else 7200
+    cap = 500 if tier == "quick" else 1500
     return engine.run_check(PROP, "c07", tier, n, cap, "fault_enumeration", RULE, ASSUMPTIONS)
